@@ -88,6 +88,25 @@ class Generator {
             consider(mk(K::Imperative, { t.node, mk(K::Assign, { decl, dom.node }) }));
           }
         }
+        // enumerated declaration mixing a tuple pattern and a plain variable:  ∀(x,y),z∈S P   and   ∀z,(x,y)∈S P
+        if (elem.isTuple() && env.size() + elem.comp.size() + 1 <= varNames.size()) {
+          Env e = env; std::vector<Node> vs;
+          for (size_t i = 0; i < elem.comp.size(); ++i) { const std::string vn = varNames[env.size() + i]; e.emplace_back(vn, elem.comp[i]); vs.push_back(leaf(K::Local, vn)); }
+          const std::string vz = varNames[env.size() + elem.comp.size()]; e.emplace_back(vz, elem);
+          // bodies that pin down the type of the plain variable (what a slip in the checker would get wrong)
+          std::vector<Node> ps;
+          ps.push_back(mk(K::In, { leaf(K::Local, vz), dom.node }));
+          ps.push_back(mk(K::Eq, { leaf(K::Local, vz), mk(K::Tuple, vs) }));
+          ps.push_back(mk(K::Eq, { mkidx(K::SmallPr, { 1 }, { leaf(K::Local, vz) }), vs[0] }));
+          ps.push_back(mk(K::Ne, { mkidx(K::SmallPr, { static_cast<int>(elem.comp.size()) }, { leaf(K::Local, vz) }), vs.back() }));
+          ps.push_back(mk(K::Eq, { leaf(K::Local, vz), vs.back() }));                          // ill-typed unless the tuple is degenerate
+          ps.push_back(mk(K::Eq, { mk(K::Card, { leaf(K::Local, vz) }), mk(K::Card, { vs.back() }) }));   // the seeded-slip witness shape
+          for (auto& p : ps) {
+            consider(mk(K::Forall, { mk(K::EnumDecl, { mk(K::TupleDecl, vs), leaf(K::Local, vz) }), dom.node, p }));
+            consider(mk(K::Exists, { mk(K::EnumDecl, { leaf(K::Local, vz), mk(K::TupleDecl, vs) }), dom.node, p }));
+            consider(mk(K::Exists, { mk(K::EnumDecl, { mk(K::TupleDecl, vs), leaf(K::Local, vz) }), dom.node, p }));
+          }
+        }
         // enumerated declaration  ∀x,y∈S P(x,y)
         if (env.size() + 2 <= varNames.size()) {
           Env e = env; const std::string v2 = varNames[env.size() + 1]; e.emplace_back(v, elem); e.emplace_back(v2, elem);
